@@ -243,6 +243,11 @@ def check_tree(desc, tier, twin=False):
             exp_f = spec_flops(expr, aware)
             if got != exp_f:
                 viol(f"{cls.__name__}", f"{cls.__name__} = {got}, independent count = {exp_f}")
+            # a second, fresh counter (and the first one's state must not matter to it)
+            got2 = cls()(expr)
+            if got2 != exp_f and got == exp_f:
+                viol(f"{cls.__name__}-second-instance", f"a second fresh {cls.__name__} in the same process counts {got2}, "
+                                                        f"the first counted {got}, independent count = {exp_f}")
         except (UnsupportedExpressionError, NotImplementedError, TypeError):
             pass
         except Exception as e:  # noqa: BLE001
